@@ -1,14 +1,16 @@
 // C16 — one call consumes one document from a stream.
 //
-// Enumerates every sequence of 1..3 documents (quick: <= 2) over a 14-document JSON alphabet x every
-// choice of whitespace separator before / between / after x 6 suffixes appended after the last document
-// x 6 readers, and every sequence of <= 3 MessagePack objects over all encodings (<= 1 non-minimal node)
-// of 12 small values x 5 suffixes x 6 readers.  After every call the number of bytes the reader has
-// handed out must be exactly "leading whitespace + the document" (one more allowed after a JSON
-// number), the code must be Ok and the document must observe as the reference value; what calls 1..i
-// returned and consumed must be a function of the bytes they consumed (memo across the whole
-// enumeration: the same consumed prefix must never give two different answers); a further call on an
-// exhausted stream must return EmptyInput.
+// Enumerates every sequence of 1..3 documents over a 14-document JSON alphabet (plus 8 larger documents in
+// short sequences) x every choice of whitespace separator before / between / after x 6 suffixes appended
+// after the last document x 6 readers, and every sequence of <= 3 MessagePack objects over all encodings
+// (<= 1 non-minimal node) of 12 small values (plus 7 larger ones in short sequences) x 5 suffixes x 6 readers.
+// After every call the number of bytes the reader has handed out must be exactly "leading whitespace +
+// the document" (one more allowed after a JSON number), the code must be Ok and the document must
+// observe as the reference value.  What calls 1..i returned and consumed must be a function of the
+// bytes they consumed: (a) a memo across the whole enumeration - the same (reader, consumed prefix) must
+// never give two different answers - and (b) inside each case, re-running calls 1..i on a stream that
+// holds only the consumed bytes must give the same answers.  A further call on an exhausted stream
+// must return EmptyInput.
 #pragma once
 #include <ArduinoJson.h>
 
